@@ -231,6 +231,12 @@ func (t *tr) expr(e ast.Expr) string {
 		if x.Name == "true" || x.Name == "false" {
 			return x.Name
 		}
+		if x.Name == "nil" {
+			if tv.IsNil() {
+				t.notes = append(t.notes, fmt.Sprintf("%s: nil []byte is the empty list (nil and empty are not distinguished)", t.curFn))
+				return "[]"
+			}
+		}
 		return leanName(x.Name)
 	case *ast.SelectorExpr:
 		if id, ok := x.X.(*ast.Ident); ok {
@@ -414,6 +420,19 @@ func (t *tr) call(x *ast.CallExpr) string {
 				return "(BitVec.ofNat 64 " + t.expr(x.Args[0]) + ".length)"
 			}
 			return t.fail(x, "len of non-bytes")
+		case "append":
+			if y, ok := t.typeOfExpr(x); ok && y.kind == "bytes" && len(x.Args) >= 1 {
+				base := t.expr(x.Args[0])
+				if x.Ellipsis != token.NoPos && len(x.Args) == 2 {
+					return "(" + base + " ++ " + t.expr(x.Args[1]) + ")"
+				}
+				var es []string
+				for _, a := range x.Args[1:] {
+					es = append(es, t.expr(a))
+				}
+				return "(" + base + " ++ [" + strings.Join(es, ", ") + "])"
+			}
+			return t.fail(x, "append")
 		case "make":
 			if y, ok := t.typeOfExpr(x); ok && y.kind == "bytes" && len(x.Args) == 2 {
 				return "(List.replicate " + t.natOf(x.Args[1]) + " 0#8)"
@@ -426,6 +445,29 @@ func (t *tr) call(x *ast.CallExpr) string {
 				as = append(as, t.expr(a))
 			}
 			return "(" + leanName(id.Name) + " " + strings.Join(as, " ") + ")"
+		}
+	}
+	// method call recv.M(args) of a translated method `T.M`
+	if se, ok := x.Fun.(*ast.SelectorExpr); ok {
+		if sel := t.info.Uses[se.Sel]; sel != nil {
+			if fn, ok := sel.(*types.Func); ok {
+				if sig, ok := fn.Type().(*types.Signature); ok && sig.Recv() != nil {
+					rt := sig.Recv().Type()
+					if pt, ok := rt.(*types.Pointer); ok {
+						rt = pt.Elem()
+					}
+					if nt, ok := rt.(*types.Named); ok {
+						full := nt.Obj().Name() + "." + fn.Name()
+						if t.known[full] {
+							as := []string{t.expr(se.X)}
+							for _, a := range x.Args {
+								as = append(as, t.expr(a))
+							}
+							return "(" + leanName(strings.ReplaceAll(full, ".", "_")) + " " + strings.Join(as, " ") + ")"
+						}
+					}
+				}
+			}
 		}
 	}
 	return t.fail(x, "call %s", src(t.fset, x.Fun))
@@ -873,7 +915,22 @@ func (t *tr) params(fl *ast.FieldList) ([]string, []string) {
 
 func (t *tr) function(fd *ast.FuncDecl) string {
 	t.curFn = fd.Name.Name
-	_, decls := t.params(fd.Type.Params)
+	defName := fd.Name.Name
+	var decls []string
+	if fd.Recv != nil && len(fd.Recv.List) == 1 {
+		_, rd := t.params(fd.Recv)
+		decls = append(decls, rd...)
+		rt := fd.Recv.List[0].Type
+		if st, ok := rt.(*ast.StarExpr); ok {
+			rt = st.X
+		}
+		if id, ok := rt.(*ast.Ident); ok {
+			defName = id.Name + "_" + fd.Name.Name
+			t.curFn = id.Name + "." + fd.Name.Name
+		}
+	}
+	_, pd := t.params(fd.Type.Params)
+	decls = append(decls, pd...)
 	var resNames []string
 	var resTys []string
 	pre := ""
@@ -896,7 +953,7 @@ func (t *tr) function(fd *ast.FuncDecl) string {
 	}
 	pos := t.fset.Position(fd.Pos())
 	out := fmt.Sprintf("/-- %s:%d `%s` -/\n", filepath.Base(pos.Filename), pos.Line, src(t.fset, fd.Type))
-	out += fmt.Sprintf("def %s %s : %s :=\n", leanName(fd.Name.Name), strings.Join(decls, " "), strings.Join(resTys, " × "))
+	out += fmt.Sprintf("def %s %s : %s :=\n", leanName(defName), strings.Join(decls, " "), strings.Join(resTys, " × "))
 	t.indent = 1
 	out += pre + t.stmts(fd.Body.List, func() string { return tuple(resNames) }, resNames)
 	return out
